@@ -2092,6 +2092,12 @@ func opcodeCheckMultiSig(op *ParsedOpcode, t *thread) error {
 		return errs.NewError(errs.ErrTooManyOperations, "exceeded max operation limit of %d", t.cfg.MaxOps())
 	}
 
+	// Each key is a stack item: never size anything from the (script supplied) count alone.
+	if int64(numPubKeys) > int64(t.dstack.Depth()) {
+		return errs.NewError(errs.ErrInvalidStackOperation,
+			"number of pubkeys %d exceeds stack size %d", numPubKeys, t.dstack.Depth())
+	}
+
 	pubKeys := make([][]byte, 0, numPubKeys)
 	for i := 0; i < numPubKeys; i++ {
 		pubKey, err := t.dstack.PopByteArray() //nolint:govet // ignore shadowed error
